@@ -165,6 +165,10 @@ def reformat_files(
         raise ValueError(
             "Cannot specify output file when processing multiple files (use --inplace instead)"
         )
+    if inplace and "-" in files:
+        # Reject the whole run up front: reformat_file would raise this only when it reaches
+        # the "-", after the files named before it have already been rewritten.
+        raise ValueError("Cannot use `inplace` with stdin")
 
     for file_path in files:
         if inplace:
